@@ -33,6 +33,9 @@ type Field struct {
 	Level  int    // level of wkbcommon.MaxGeometryElements it is checked against (0 = none)
 	Value  uint32 // value
 	What   string
+	// BigEndian: the byte order of the geometry the field belongs to (every
+	// geometry of an encoding, members included, starts with its own byte-order mark).
+	BigEndian bool
 }
 
 // ErrNotEncodable is returned for geometries the format cannot carry.
@@ -51,6 +54,11 @@ type enc struct {
 	// TypeWords are the offsets of the 4-byte type words of every geometry
 	// header, in encoding order (index 0 is the top-level geometry).
 	typeWords []int
+	// typeWordBE[i]: typeWords[i] is written big endian.
+	typeWordBE []bool
+	// flip, when set, decides for the n-th header (n >= 1, in encoding order)
+	// whether that geometry uses the other byte order than its parent.
+	flip func(n int) bool
 }
 
 func (e *enc) u32(v uint32) {
@@ -60,7 +68,7 @@ func (e *enc) u32(v uint32) {
 }
 
 func (e *enc) count(n int, level int, what string) {
-	e.fields = append(e.fields, Field{Offset: len(e.buf), Level: level, Value: uint32(n), What: what})
+	e.fields = append(e.fields, Field{Offset: len(e.buf), Level: level, Value: uint32(n), What: what, BigEndian: e.bo == binary.BigEndian})
 	e.u32(uint32(n))
 }
 
@@ -97,6 +105,7 @@ func (e *enc) header(id uint32, l geom.Layout, srid int) error {
 			return ErrNotEncodable
 		}
 		e.typeWords = append(e.typeWords, len(e.buf))
+		e.typeWordBE = append(e.typeWordBE, e.bo == binary.BigEndian)
 		e.u32(t)
 	case EWKB:
 		switch l {
@@ -114,6 +123,7 @@ func (e *enc) header(id uint32, l geom.Layout, srid int) error {
 			t |= 0x20000000
 		}
 		e.typeWords = append(e.typeWords, len(e.buf))
+		e.typeWordBE = append(e.typeWordBE, e.bo == binary.BigEndian)
 		e.u32(t)
 		if srid != 0 {
 			e.u32(uint32(srid))
@@ -148,6 +158,15 @@ func (e *enc) geom(g *model.G, top bool) error {
 	srid := g.SRID
 	if e.mode == ISO {
 		srid = 0
+	}
+	if !top && e.flip != nil && e.flip(len(e.typeWords)) {
+		saved := e.bo
+		defer func() { e.bo = saved }()
+		if e.bo == binary.BigEndian {
+			e.bo = binary.LittleEndian
+		} else {
+			e.bo = binary.BigEndian
+		}
 	}
 	if err := e.header(id, l, srid); err != nil {
 		return err
@@ -232,6 +251,22 @@ func EncodeWithHeaders(g *model.G, xdr bool, mode Mode) ([]byte, []Field, []int,
 		return nil, nil, nil, err
 	}
 	return e.buf, e.fields, e.typeWords, nil
+}
+
+// EncodeMixed is EncodeWithHeaders in which every geometry below the top level
+// (members of multi-geometries and of collections, at any depth) may use the
+// other byte order than its parent: flip(n) decides for the n-th header. Both
+// formats allow it - each geometry carries its own byte-order mark. It also
+// returns, per type word, whether it is big endian.
+func EncodeMixed(g *model.G, xdr bool, mode Mode, flip func(n int) bool) ([]byte, []Field, []int, []bool, error) {
+	e := &enc{mode: mode, bo: binary.LittleEndian, flip: flip}
+	if xdr {
+		e.bo = binary.BigEndian
+	}
+	if err := e.geom(g, true); err != nil {
+		return nil, nil, nil, nil, err
+	}
+	return e.buf, e.fields, e.typeWords, e.typeWordBE, nil
 }
 
 // HasEmptyPoint reports whether an empty point (or empty multipoint member)
